@@ -681,11 +681,15 @@ class Messenger(Connection):
 
         if isinstance(pkt, contact.Head):
             if pkt.magic != contact.MAGIC_HEAD:
-                raise ValueError('Contact header with bad magic: {0}'.format(
-                    binascii.hexlify(pkt.magic)))
+                self._logger.error('Contact header with bad magic: %s',
+                                   binascii.hexlify(pkt.magic))
+                self.close()
+                return
             if pkt.version != 4:
-                raise ValueError(
-                    'Contact header with bad version: {0}'.format(pkt.version))
+                self._logger.error('Contact header with bad version: %s',
+                                   pkt.version)
+                self.close()
+                return
 
             if self._as_passive:
                 # After initial validation send reply
